@@ -773,6 +773,7 @@ def rule_lookup_provenance(ctx, rep: Report, rid="Q5"):
         vs = [st.value for st in la.get(name, []) if isinstance(st, ast.Assign)]
         return vs[0] if len(vs) == 1 else None
     arity = False
+    arity_detail = None
     plist = [n for n in la if value_of(n) == f"{cand}.findall('param')"]
     for i in ast.walk(outer):
         if isinstance(i, ast.If) and isinstance(i.test, ast.BoolOp) and isinstance(i.test.op, ast.And) and len(i.test.values) == 2 \
@@ -794,7 +795,65 @@ def rule_lookup_provenance(ctx, rep: Report, rid="Q5"):
                 e = expr_of(e.id) if isinstance(e, ast.Name) and expr_of(e.id) is not None else e
                 kinds.append(_count_kind(prog, ci, ff, e, plist[0], la))
             arity = arity or sorted(kinds) == ["required", "total"]
+    # ... or any other spelling of the same test: the condition under which a candidate is skipped, read as a predicate over
+    # (given count N, required count R, total count T), has to be exactly `N != R and N != T` for all 0 <= R <= T <= 3, 0 <= N <= 4
+    if not arity and plist:
+        def classify(e):
+            if unparse(e).replace(" ", "") == f"len({names_p})":
+                return "N"
+            e2 = expr_of(e.id) if isinstance(e, ast.Name) and expr_of(e.id) is not None else e
+            k = _count_kind(prog, ci, ff, e2, plist[0], la)
+            return {"required": "R", "total": "T"}.get(k)
+
+        def ev(e, env):
+            k = classify(e) if isinstance(e, (ast.Name, ast.Call, ast.BinOp)) else None
+            if k is not None:
+                return env[k]
+            if isinstance(e, ast.Constant) and isinstance(e.value, (int, bool)):
+                return e.value
+            if isinstance(e, ast.UnaryOp) and isinstance(e.op, ast.Not):
+                v = ev(e.operand, env)
+                return None if v is None else not v
+            if isinstance(e, ast.BoolOp):
+                vs = [ev(v, env) for v in e.values]
+                if any(v is None for v in vs):
+                    return None
+                return all(vs) if isinstance(e.op, ast.And) else any(vs)
+            if isinstance(e, (ast.Tuple, ast.List, ast.Set)):
+                vs = [ev(v, env) for v in e.elts]
+                return None if any(v is None for v in vs) else vs
+            if isinstance(e, ast.Compare):
+                left = ev(e.left, env)
+                res = True
+                for op, right in zip(e.ops, e.comparators):
+                    r = ev(right, env)
+                    if left is None or r is None:
+                        return None
+                    ok_ = {ast.Eq: lambda a, b: a == b, ast.NotEq: lambda a, b: a != b, ast.Lt: lambda a, b: a < b, ast.LtE: lambda a, b: a <= b,
+                           ast.Gt: lambda a, b: a > b, ast.GtE: lambda a, b: a >= b, ast.In: lambda a, b: a in b, ast.NotIn: lambda a, b: a not in b}.get(type(op))
+                    if ok_ is None:
+                        return None
+                    res = res and ok_(left, r)
+                    left = r
+                return res
+            return None
+        for i in ast.walk(outer):
+            if not (isinstance(i, ast.If) and any(isinstance(x, ast.Continue) for x in i.body) and f"len({names_p})" in unparse(i.test).replace(" ", "")):
+                continue
+            table = []
+            for t_ in range(0, 4):
+                for r_ in range(0, t_ + 1):
+                    for n_ in range(0, 5):
+                        table.append((ev(i.test, {"N": n_, "R": r_, "T": t_}), n_ != r_ and n_ != t_))
+            if all(got is not None for got, _ in table):
+                arity = all(bool(got) == want for got, want in table)
+                if not arity:
+                    wrong = [(n_, r_, t_) for t_ in range(0, 4) for r_ in range(0, t_ + 1) for n_ in range(0, 5)
+                             if bool(ev(i.test, {"N": n_, "R": r_, "T": t_})) != (n_ != r_ and n_ != t_)][:2]
+                    arity_detail = (f"`{unparse(i.test)[:70]}` keeps a candidate for (given, required, total) = {wrong}: a binding with a count strictly between "
+                                    f"required and total matches an overload that is never wrapped with that many arguments and can take its text")
     rep.add(rid, "candidates kept only if the parameter count equals the given count (required or total)", arity,
+            arity_detail or
             "arity filter `len(names) != required and len(names) != total -> skip` not found (total = number of <param>, required = total minus "
             "those with a <defval>)", f"{ci.mod.rel}:{ff.lineno}")
     # names at the same index: `for i, n in enumerate(names)` with params[i], or `for p, n in zip(params, names)`;
